@@ -153,6 +153,10 @@ func toCodeBasic(t types.BasicKind) *jen.Statement {
 		return jen.Uint32()
 	case types.Uint64:
 		return jen.Uint64()
+	case types.Uintptr:
+		return jen.Uintptr()
+	case types.UnsafePointer:
+		return jen.Qual("unsafe", "Pointer")
 	case types.Bool:
 		return jen.Bool()
 	case types.Complex128:
